@@ -502,6 +502,14 @@ func (v *Verifier) intrinsic(fr *Frame, st *State, full string, fn *types.Func, 
 			v.eng.heapSetRows(st, sh.Elem, ref, []*Term{row})
 			return SliceVal{Sh: sh, Ref: ref, Off: c.Inti(0), Len: n, Cap: n}, true
 		}
+	case "(*sync.Pool).Get":
+		use()
+		sh := v.eng.shapeOf(fn.Type().(*types.Signature).Results().At(0).Type())
+		return OpaqueVal{Sh: sh, ID: c.Fresh("pool$get", IntSort), Nil: c.False()}, true
+	case "(*sync.Pool).Put":
+		// returning an object to a pool has no effect on the model (ownership is not tracked)
+		use()
+		return TupleVal{}, true
 	case "encoding/binary.ReadUvarint":
 		// reads 1..10 bytes from a byte reader; the decoded value is not modelled (fresh)
 		use()
